@@ -190,6 +190,10 @@ def check_builder(ctx):
     import re as _re
 
     ct = _re.sub(r"[A-Za-z_][A-Za-z_0-9]*\.structure", "S", norm(c_tok[0]))
+    if "S" not in bt or "S" not in ct:
+        # one side tokenises something that is not spelled `<x>.structure` (a parameter of a helper, a
+        # field of a parsed-structure object ...): what it stands for is not followed here
+        raise AnalysisError(f"C09.2: cannot relate the strings tokenised by the builder (`{norm(b_tok[0])}`) and by the checker (`{norm(c_tok[0])}`)")
     if bt != ct or bt != "S.split()":
         ctx.bad("C09.2", f, b_tok[0], f"the builder validates the tokens `{norm(b_tok[0])}` but the checker interprets `{norm(c_tok[0])}`: a structure string can pass validation and still "
                 "contain a token the checker cannot interpret (e.g. `T...`), so it is not rejected with ValueError when the annotation is built",
@@ -332,6 +336,9 @@ def check_mode_table(ctx):
         neither = consts(st.orelse[0].orelse)
     want = ({"prefix": False, "suffix": True}, {"prefix": True, "suffix": False}, {"prefix": False, "suffix": False})
     got = (lead, trail, neither)
+    if not all(set(d) >= {"prefix", "suffix"} for d in got):
+        raise AnalysisError(f"C09.4: the mode selected by a leading / trailing `...` is not recorded in two boolean flags `prefix` / `suffix` (found {got}); "
+                            "another encoding of the mode is not interpreted")
     if got != want:
         ctx.bad("C09.4", f, st, f"mode table: leading `...` -> {lead}, trailing `...` -> {trail}, neither -> {neither}; the documentation says '... T' = suffix (bottom layer made of T), "
                 "'T ...' = prefix, otherwise exact", construct=f"mode table {got}")
@@ -339,6 +346,8 @@ def check_mode_table(ctx):
         ctx.ok("C09.4", f.qualname, "leading `...` -> suffix mode, trailing `...` -> prefix mode, neither -> exact")
     # the slices that drop the `...` token
     drops = {norm(a) for a in ast.walk(st) if isinstance(a, ast.Assign) and norm(a.targets[0]) == "pieces"}
+    if not drops:
+        raise AnalysisError("C09.4: how the `...` token is removed from the token list was not recognised")
     if drops != {"pieces = pieces[1:]", "pieces = pieces[:-1]"}:
         ctx.bad("C09.4", f, st, f"the `...` token is not removed from the right end of the token list: {sorted(drops)}")
     # rejections of the composite branch
